@@ -19,7 +19,60 @@ PY = "/venv/bin/python"
 SCRATCH = Path("/tmp/sa_h")
 
 
+import json
+import re
+import threading
+
+_BASE_LOCK = threading.Lock()
+_BASE_FAILS: dict[str, set] = {}
+
+
+def _run_checks(root: Path):
+    p = subprocess.run([PY, "-m", "sa.runall"], cwd=VERIF, capture_output=True, text=True, env={**os.environ, "PIPEFUNC_REPO": str(root)})
+    res, cur = {}, None
+    for l in p.stdout.splitlines():
+        if l.startswith("== "):
+            cur = l.split()[1]
+            res[cur] = (int(l.split("rc=")[1]), [])
+        elif cur:
+            res[cur][1].append(l)
+    return res, p.stderr
+
+
+def _fail_key(line: str):
+    """FAILED <rule> <file:line> [<instance>] <detail>  ->  (rule, instance, start of the detail): independent of line numbers."""
+    m = re.match(r"(FAILED|ANALYSIS-ERROR)\s+(\S+)\s+\S*\s*\[([^\]]*)\]\s*(.*)", line)
+    if not m:
+        return ("?", re.sub(r"\d+", "#", line)[:90])
+    # the refactoring may have renamed the construct: compare the rule and the wording, not the quoted code or the instance
+    return (m[2], re.sub(r"\d+", "#", re.sub(r"`[^`]*`", "`..`", m[4]))[:60])
+
+
+def _archive(base: str, root: Path) -> bool:
+    a = subprocess.run(f"git -C /repo archive {base} pipefunc | tar -x -C {root}", shell=True, capture_output=True, text=True)
+    return a.returncode == 0 and (root / "pipefunc").is_dir()
+
+
+def _base_failures(base: str) -> set:
+    """What the checks report on the UNPATCHED tree of commit `base` (the defects repaired since then): not the patch's doing."""
+    with _BASE_LOCK:
+        if base in _BASE_FAILS:
+            return _BASE_FAILS[base]
+        root = SCRATCH / f"base_{base}_{os.getpid()}"
+        shutil.rmtree(root, ignore_errors=True)
+        root.mkdir(parents=True)
+        try:
+            _archive(base, root)
+            res, _err = _run_checks(root)
+            _BASE_FAILS[base] = {_fail_key(l) for _p, (_rc, ls) in res.items() for l in ls if l.startswith(("FAILED", "ANALYSIS-ERROR"))}
+        finally:
+            shutil.rmtree(root, ignore_errors=True)
+        return _BASE_FAILS[base]
+
+
 def one(patch: Path):
+    """Apply the patch to /repo's working tree; a patch written for an earlier commit whose context has since been changed by a
+    repair is applied to the tree of THAT commit instead, and what the checks already report on that tree unpatched is subtracted."""
     name = f"{patch.parent.name}/{patch.name}"
     root = SCRATCH / f"{patch.parent.name}_{patch.stem}_{os.getpid()}"
     shutil.rmtree(root, ignore_errors=True)
@@ -27,19 +80,31 @@ def one(patch: Path):
     try:
         shutil.copytree("/repo/pipefunc", root / "pipefunc", ignore=shutil.ignore_patterns("__pycache__"))
         a = subprocess.run(["patch", "-p1", "-s", "-d", str(root)], stdin=open(patch), capture_output=True, text=True)
+        base = None
         if a.returncode != 0:
-            return name, None, a.stdout[:200] + a.stderr[:200]
-        p = subprocess.run([PY, "-m", "sa.runall"], cwd=VERIF, capture_output=True, text=True, env={**os.environ, "PIPEFUNC_REPO": str(root)})
-        res, cur = {}, None
-        for l in p.stdout.splitlines():
-            if l.startswith("== "):
-                cur = l.split()[1]
-                res[cur] = (int(l.split("rc=")[1]), [])
-            elif cur:
-                res[cur][1].append(l)
+            meta = patch.parent / "meta.json"
+            m = json.loads(meta.read_text()) if meta.is_file() else {}
+            cands = [m.get("rebased_on"), m.get("confirmed_on"), m.get("base"), "e2e50dc"]
+            for b in [c for c in cands if c]:
+                shutil.rmtree(root, ignore_errors=True)
+                root.mkdir(parents=True)
+                if _archive(b, root) and subprocess.run(["patch", "-p1", "-s", "-d", str(root)], stdin=open(patch), capture_output=True, text=True).returncode == 0:
+                    base = b
+                    break
+            if base is None:
+                return name, None, a.stdout[:200] + a.stderr[:200]
+        res, err = _run_checks(root)
         if not res:
-            return name, None, p.stderr[-300:]
-        return name, res, ""
+            return name, None, err[-300:]
+        if base is not None:
+            known = _base_failures(base)
+            out = {}
+            for p_, (rc, ls) in res.items():
+                kept = [l for l in ls if not (l.startswith(("FAILED", "ANALYSIS-ERROR", "VIOLATION", "    path:")) and (l.startswith(("VIOLATION", "    path:")) or _fail_key(l) in known))]
+                still = [l for l in kept if l.startswith(("FAILED", "ANALYSIS-ERROR"))]
+                out[p_] = ((rc if still else 0), kept)
+            res = out
+        return name + (f" @{base}" if base else ""), res, ""
     finally:
         shutil.rmtree(root, ignore_errors=True)
 
